@@ -158,3 +158,30 @@ Definition compose_out_eq (a : outcome (N * bytes)) (b : outcome (N * bytes)) : 
   | Panic, Panic => true
   | _, _ => false
   end.
+
+(* --- Compose on a reused ShortMessage value: the state is (data_coding, octets);
+   a successful Compose replaces both, a failing one leaves the value alone.
+   status: 0 composed, 1 does not fit, 2 encoder error, 3 panic *)
+Definition compose_step (m : N * bytes) (rs : list N) : (N * bytes) * N :=
+  match compose rs with
+  | Ok m' => (m', 0)
+  | Err ESize => (m, 1)
+  | Err _ => (m, 2)
+  | Panic => (m, 3)
+  end.
+
+(* state after each Compose of a history, with what Parse returns from it when Compose succeeded *)
+Fixpoint compose_history (m : N * bytes) (texts : list (list N))
+  : list (N * bytes * N * option (outcome (list N))) :=
+  match texts with
+  | [] => []
+  | t :: rest =>
+      let '(m', st) := compose_step m t in
+      (fst m', snd m', st, if st =? 0 then Some (parse m') else None) :: compose_history m' rest
+  end.
+
+Definition history_eq (a b : list (N * bytes * N * option (outcome (list N)))) : bool :=
+  beq_list (fun x y =>
+    let '(d, o, s, p) := x in let '(d', o', s', p') := y in
+    (d =? d') && beq_bytes o o' && (s =? s') &&
+    match p, p' with Some u, Some v => same_out u v | None, None => true | _, _ => false end) a b.
